@@ -8,6 +8,7 @@ fan-out / filter / container-style configuration.  Oracle: a list of assignments
 from __future__ import annotations
 
 import asyncio
+import collections
 import copy
 import itertools
 
@@ -15,7 +16,7 @@ import edzed
 
 from ..explore import Acc
 from ..harness import Sim, stop
-from ..probes import Probe
+from ..probes import Probe, lblock_class
 from ..stategraph import bfs, fingerprint
 
 PROPERTY = 'C02'
@@ -38,7 +39,7 @@ ASSUMPTIONS = ["event filters in the configurations are stateless and determinis
 UNDEF = edzed.UNDEF
 NAN = float('nan')      # compares unequal to itself: every assignment of it is a change
 V = [0, False, 0.0, 1, True, 1.0, 2, None, (), (1,), 'a', [1], NAN]
-FILTERS = ['none', 'pass', 'edit', 'reject', 'mut', 'empty', 'strip']
+FILTERS = ['none', 'pass', 'edit', 'reject', 'mut', 'empty', 'strip', 'umap', 'emptyud']
 
 
 def configs(tier):
@@ -75,6 +76,11 @@ def configs(tier):
     for c in [c for c in out if c['style'] != 'single' and c['k'] + c['m'] >= 1
               and (c['pat'] in (-1, 2) or tier != 'quick') and not c['shared']]:
         out.append(dict(c, dup=1))
+    # output assignments made while the circuit is being stopped (in stop(), by stop_data
+    # runs): the history reported by the events ends with the block's final output
+    for sender in ('stop-set', 'stop-same', 'outasync'):
+        for cause in ('shutdown', 'abort'):
+            out.append(dict(kind='cleanup', sender=sender, cause=cause, k=1, m=1, pat=-1, style='list', shared=1))
     # one Event object configured on two sender blocks: 'source' and 'previous' are the sender's
     for pair in (('sb', 'sb'), ('input', 'counter'), ('input', 'not')):
         for k, m in ((1, 0), (0, 1), (1, 1), (2, 1)) if tier == 'quick' else itertools.product(range(4), repeat=2):
@@ -114,19 +120,25 @@ def make_filter(kind):
         return lambda data: {}          # a mapping (even an empty one) replaces the data
     if kind == 'strip':
         return edzed.DataEdit.permit()
+    if kind == 'umap':      # a MutableMapping that is not a dict replaces the data as well
+        return lambda data: collections.UserDict({**data, 'u': 3})
+    if kind == 'emptyud':
+        return lambda data: collections.UserDict()
     return _mut
 
 
 def apply_ref(kind, data):
     if kind == 'reject':
         return None
-    if kind in ('empty', 'strip'):
+    if kind in ('empty', 'strip', 'emptyud'):
         return {}
     data = dict(data)
     if kind == 'edit':
         data['x'] = 1
     if kind == 'mut':
         data['y'] = 2
+    if kind == 'umap':
+        data['u'] = 3
     return data
 
 
@@ -402,8 +414,67 @@ def run_shared(cfg, hist):
     return (None if info.get('dead') else info['canon']), info
 
 
+def run_cleanup(cfg, acc):
+    viol = []
+    log = []
+    res = {}
+    with Sim() as sim:
+        probe = Probe('probe', log=log)
+        kw = dict(on_output=edzed.Event(probe, 'o'), on_every_output=edzed.Event(probe, 'e'))
+        if cfg['sender'] == 'outasync':
+            async def coro(value):
+                await asyncio.sleep(1)
+            blk = edzed.OutputAsync('snd', coro=coro, mode='wait', stop_data={'value': 'STOP'},
+                                    on_error=None, stop_timeout=10, **kw)
+            assigned = [0, 1, 0]        # init, stop_data run begins, run ends
+        else:
+            final = 5 if cfg['sender'] == 'stop-set' else 0
+            blk = lblock_class()('snd', log=[], cfg={'init_regular': ('set', 0), 'stop': ('set', final)}, **kw)
+            assigned = [0, final]
+
+        async def driver():
+            task = asyncio.create_task(sim.circuit.run_forever())
+            await sim.circuit.wait_init()
+            await sim.loop.idle()
+            if cfg['cause'] == 'abort':
+                sim.circuit.abort(RuntimeError('stop the circuit'))
+            await stop(sim.circuit)
+            res['final'] = blk.output
+            del task
+        sim.run(driver())
+    acc.execs += 1
+    o_ev = [d for (_t, _n, e, d) in log if e == 'o']
+    e_ev = [d for (_t, _n, e, d) in log if e == 'e']
+    acc.outcome(('cleanup', cfg['sender'], cfg['cause'], repr([(d['previous'], d['value']) for d in o_ev]), len(e_ev)))
+    tag = f"sender {cfg['sender']}, stopped by {cfg['cause']}: assignments {assigned}"
+    exp_o, prev = [], UNDEF
+    for v in assigned:
+        if prev is UNDEF or prev != v:
+            exp_o.append((prev, v))
+            prev = v
+    exp_e, prev = [], UNDEF
+    for v in assigned:
+        exp_e.append((prev, v))
+        prev = v
+    got_o = [(d['previous'], d['value']) for d in o_ev]
+    got_e = [(d['previous'], d['value']) for d in e_ev]
+    if res.get('final') != assigned[-1]:
+        viol.append(('output-value', f"{tag}: final output {res.get('final')!r}"))
+    if got_o != exp_o:
+        viol.append(('missing-delivery' if len(got_o) < len(exp_o) else 'which-events',
+                     f"{tag}: on_output reported {got_o}, expected {exp_o}"))
+    if got_e != exp_e:
+        viol.append(('missing-delivery' if len(got_e) < len(exp_e) else 'which-events',
+                     f"{tag}: on_every_output reported {got_e}, expected {exp_e}"))
+    return viol
+
+
 def run_config(cfg):
     acc = Acc()
+    if cfg.get('kind') == 'cleanup':
+        for sig, msg in run_cleanup(cfg, acc):
+            acc.violation(f"C02:{sig}:cleanup", msg, cfg=cfg)
+        return acc
     if cfg.get('kind') == 'shared-event':
         def on_step2(hist, hc, sym, canon, info):
             for sig, msg in info['viol']:
